@@ -193,6 +193,23 @@ def gate_uniq(x, double=True, shift=True):
     return jnp.where(shift, y + 10.0, y)
 
 
+def mag_plain(x):
+    return jnp.concatenate([x, jnp.abs(x)], axis=-1)
+
+
+@onnx_function
+def mag_fn(x):
+    return jnp.concatenate([x, jnp.abs(x)], axis=-1)
+
+
+@onnx_function(unique=True)
+def mag_uniq(x):
+    return jnp.concatenate([x, jnp.abs(x)], axis=-1)
+
+
+MAG_DTYPES = {"f32": jnp.float32, "i32": jnp.int32, "i16": jnp.int16, "i8": jnp.int8, "f16": jnp.float16}
+
+
 def site_strategy():
     from hypothesis import strategies as st
 
